@@ -29,6 +29,7 @@ import (
 	"github.com/hashicorp/go-plugin/internal/cmdrunner"
 	"github.com/hashicorp/go-plugin/internal/grpcmux"
 	"github.com/hashicorp/go-plugin/runner"
+	"github.com/hashicorp/go-plugin/verifhook"
 	"google.golang.org/grpc"
 )
 
@@ -504,6 +505,7 @@ func (c *Client) Kill() {
 	hostSocketDir := c.unixSocketCfg.socketDir
 	c.l.Unlock()
 
+	verifhook.Point("client.kill.begin")
 	// If there is no runner or ID, there is nothing to kill.
 	if runner == nil || runner.ID() == "" {
 		return
@@ -738,6 +740,7 @@ func (c *Client) Start() (addr net.Addr, err error) {
 		return nil, err
 	}
 
+	verifhook.Point("client.start.launched")
 	// Make sure the command is properly cleaned up if there is an error
 	defer func() {
 		rErr := recover()
